@@ -72,3 +72,30 @@ Proof.
   unfold callback. cbn [negb andb c_T c_fb c_closed upd_A is_stopped]. rewrite Ef, Hf, Hcl.
   cbn [negb andb fst snd app c_T upd_A]. split; reflexivity.
 Qed.
+
+(* an indication (Start with no handler) - whatever transaction ID its bytes carry, and whether its
+   Write succeeds or fails - changes neither the client's table of transactions nor the agent: a
+   request in flight with the same ID stays registered, and its response still reaches it *)
+Lemma indication_keeps_transactions c id raw :
+  c_T (fst (c_start c id raw None)) = c_T c /\ c_A (fst (c_start c id raw None)) = c_A c /\
+  c_closed (fst (c_start c id raw None)) = c_closed c.
+Proof.
+  unfold c_start, c_start_gen. destruct (c_closed c) eqn:Ec; [cbn [fst]; repeat split; exact Ec|].
+  destruct (conn_write c 65535 raw) as [[c1 ok] w] eqn:E. cbn [fst].
+  pose proof (conn_write_T c 65535 raw) as [HT HA]. rewrite E in HT, HA. cbn [fst] in HT, HA.
+  repeat split; try assumption.
+  unfold conn_write in E. destruct (existsb _ _); injection E as <- _ _; exact Ec.
+Qed.
+
+Lemma indication_writes_once_or_fails c id raw o : In o (snd (c_start c id raw None)) ->
+  match o with
+  | OIndWrite b _ => b = raw
+  | ORet _ => True
+  | _ => False
+  end.
+Proof.
+  unfold c_start, c_start_gen. destruct (c_closed c); [cbn; intros [<-|[]]; exact I|].
+  destruct (conn_write c 65535 raw) as [[c1 ok] w]. cbn [snd]. destruct ok; cbn.
+  - intros [<-|[<-|[]]]; [reflexivity|exact I].
+  - intros [<-|[]]. exact I.
+Qed.
